@@ -155,7 +155,9 @@ RouteIdle == /\ tab = [k \in Keys |-> 0] /\ idc = [c \in Conns |-> FALSE] /\ ori
 (* Part "mgr": the manager driven by an arbitrary caller; raddr plays activeAddr and follows
    the connection's rule (it becomes the address whose response was accepted) *)
 
-Cookies(a) == {0, paths[a].cookie, old[a]} \cup { paths[b].cookie : b \in Addr }
+\* cookies a caller may present: none, the current / previous one of the address, any current one, and the LAST ISSUED
+\* one (a late response to a challenge whose path has meanwhile expired and been removed)
+Cookies(a) == {0, paths[a].cookie, old[a]} \cup { paths[b].cookie : b \in Addr } \cup (IF nck > 1 THEN {nck - 1} ELSE {})
 
 Log(e) == hist' = Append(hist, e @@ [post |-> Obs(paths'), act |-> raddr'])
 Step == steps < MaxSteps /\ steps' = steps + 1
@@ -415,6 +417,18 @@ Next == CASE Part = "mgr" -> MgrNext [] Part = "conn" -> ConnNext [] OTHER -> Ro
 Spec == Init /\ [][Next]_vars
 
 EmitEdge == Gen => PrintT(ToJson([steps |-> hist']))
+\* focus for HISTORY generation of the manager (no VIEW: every distinct history is explored, not one script per edge):
+\* only the calls that make up a path validation - a started challenge, records received meanwhile, reservations, the
+\* clock, a response - on addresses other than the active one.  Different histories that the model maps to the SAME
+\* state (e.g. "records arrived while the challenge was pending" vs. "no record arrived") are all replayed this way.
+FocusMgr ==
+  LET e == hist'[Len(hist')] IN
+  /\ e.op \in {"start", "tick", "received", "reserve", "response"}
+  /\ e.op = "start" => (e.en /\ e.a # Home)
+  /\ e.op \in {"received", "reserve", "response"} => e.a # Home
+  /\ e.op = "received" => e.n > 0
+  /\ e.op = "response" => e.ck # 0
+EmitFocus == FocusMgr /\ EmitEdge
 EmitLeaf == (Gen /\ steps' = MaxSteps) => PrintT(ToJson([steps |-> hist']))
 
 -----------------------------------------------------------------------------
